@@ -430,6 +430,44 @@ theorem c18_http_stop_returns_when_settled (as : List Act) :
     simp [run, step, hsp, hret, hgr, hd, hsw, hon, hcc, hwg, hap]
 
 
+/-- **The HTTP engine's Stop / Shutdown returns — the fair-schedule half** (repaired tree). From any reachable state in
+    which the listeners are closed, `closeAllConns` has run, the context is live, and every conn's socket is closed
+    with no close job dropped (= the state right after the sweep when no conn is still outside the map on its way in —
+    the excluded case is the acceptor caught mid-add-path, cf. the known finding on the core engine), let the conns
+    take their own steps in **any** interleaving (`as`: conn steps only — nothing is accepted any more) **until none has
+    a step left** (the fairness hypothesis, stated on the schedule; by `c18_http_conn_steps_bounded` that is at most 11
+    steps per conn). Then every conn is settled, the map is empty, and the remaining statements of Stop / Shutdown run
+    to the end: the result is nil. -/
+theorem c18_http_stop_returns_fair (as0 as : List Act) :
+    let s := run fixed init as0
+    s.sp = .sweeping → s.ret = .none → s.sweeps ≥ 1 → Swept s →
+    (∀ x ∈ as, ∃ i a, x = Act.conn i a) →
+    let s1 := run fixed s as
+    (∀ i a, a ≠ CAct.close → step fixed s1 (.conn i a) = none) →
+      (∀ c ∈ s1.conns, settled c = true) ∧ online s1 = 0 ∧
+      (run fixed s1 [.tick, .coreBegin, .coreWaited, .coreFinish]).ret = .ok := by
+  intro s hsp hret hsw hswept hall s1 hq
+  obtain ⟨h1, h2, h3, h4⟩ := conn_run_swept (g := fixed) as hall s hswept
+  have hreach : s1 = run fixed init (as0 ++ as) := (run_append fixed as0 as init).symm
+  have hci : AllC CInv s1 := by rw [hreach]; exact allCInv_run _ init allCInv_init
+  have hset := quiescent_settled hci h1 hq
+  refine ⟨hset, online_zero_of_settled hci hset, ?_⟩
+  have := c18_http_stop_returns_when_settled (as0 ++ as)
+  simp only at this
+  rw [← hreach] at this
+  exact (this (h2.trans hsp) (h3.trans hret) (by rw [h4]; exact hsw) hset).1
+
+/-- non-vacuity: two conns swept by Shutdown (one registered, one blocking), their own steps in an interleaving,
+    quiescence, and the return -/
+example :
+    let s := run fixed init [.accept .nb, .conn 0 .insert, .conn 0 .userOpen, .conn 0 .coreOpen, .conn 0 (.coreReg true),
+      .accept .blk, .conn 1 .insert, .conn 1 .userOpen, .conn 1 .spawn, .stopFlag true, .stopListeners, .sweep]
+    let s1 := run fixed s [.conn 1 .readerExit, .conn 0 .runJob]
+    s.sp = .sweeping ∧ s.sweeps = 1 ∧ (s.conns.all fun c => c.closed && c.job != .dropped) = true ∧
+    (s1.conns.all settled) = true ∧ (run fixed s1 [.tick, .coreBegin, .coreWaited, .coreFinish]).ret = .ok := by
+  decide
+
+
 /-- **At `onStop` every registered conn's close job has been handed to the executor** (both trees): when
     `wgConn.Wait()` returns, every conn that was registered in a poller has been closed and its close job — which
     deletes the key and calls `_onClose` — was submitted while the executor was still running; none is dropped. -/
